@@ -29,6 +29,11 @@ with the usual crossing test (`EOQ.crosses`, `EOQ.inside`):
   specification itself: `Xor` is concatenation of contour lists; start vertex and direction of a contour are
   irrelevant.
 
+Lattice calls at other magnitudes (`LT`: coordinates `(lattice + offset)·2^k`) are brought back to `[0,N]²` by the driver
+(`inside_scale`, `inside_translate`); a chain line is a sequence of calls each validated by `validateLattice` on the
+exact values the real code returned for the earlier calls; the row-wise edge filter of `EO.cellsOK` is justified by
+`EOQ.insideE_filter` and is part of `validateLattice_sound`.
+
 Not proved: anything about the clipper over all inputs; the driver's text parsing and its choice of the common exponent
 (`minExp`, a fold of `min` over all exponents of the call) are trusted glue; points lying exactly on lattice lines
 (not on an edge) are not covered by `validateLattice_sound`; for general-position inputs only sample points are judged.
